@@ -42,6 +42,20 @@ class CaseTimeout(BaseException):
 
 
 CASE_TIMEOUT_S = float(os.environ.get("VERIF_CASE_TIMEOUT", "900"))
+LASTCASE = None      # file object: the case about to be evaluated is written here first, so that the parent can
+#                      attribute a crash of this process (segfault in a C kernel) to the case that caused it
+
+
+def note_case(clause_name, case):
+    if LASTCASE is None:
+        return
+    try:
+        LASTCASE.seek(0)
+        LASTCASE.truncate()
+        LASTCASE.write(json.dumps({"clause": clause_name, "case": json.loads(canon(case))}))
+        LASTCASE.flush()
+    except Exception:
+        pass
 
 
 def _alarm(signum, frame):
@@ -197,6 +211,7 @@ def evaluate(clause, case, stats, known, budget=None):
     """Run one case; classify outcome. Returns None if OK / suppressed, or
     the exception if it is an unlisted violation."""
     stats.evaluations += 1
+    note_case(clause.name, case)
     import signal
     use_alarm = CASE_TIMEOUT_S > 0 and hasattr(signal, "setitimer")
     if use_alarm:
